@@ -477,7 +477,19 @@ func HasLazyField(md protoreflect.MessageDescriptor) bool {
 }
 
 // Corruptions of a submessage payload.
-var corruptKinds = []string{"truncated-varint", "length-overrun", "bad-wiretype", "field-zero", "stray-endgroup", "truncate-tail", "bad-utf8", "unterminated-group"}
+var corruptKinds = []string{"truncated-varint", "length-overrun", "bad-wiretype", "field-zero", "stray-endgroup", "truncate-tail", "bad-utf8", "unterminated-group",
+	"packed-misaligned", "packed-truncated-varint", "overlong-varint", "bad-utf8-in-container", "group-end-mismatch", "field-number-overflow", "nested-bad-length"}
+
+// findField returns the first field of md that satisfies ok.
+func findField(md protoreflect.MessageDescriptor, ok func(protoreflect.FieldDescriptor) bool) protoreflect.FieldDescriptor {
+	fds := md.Fields()
+	for i := 0; i < fds.Len(); i++ {
+		if fd := fds.Get(i); ok(fd) {
+			return fd
+		}
+	}
+	return nil
+}
 
 // Corrupt makes the payload of one nested message-typed field invalid while
 // keeping every enclosing length prefix consistent. It returns the kind and
@@ -556,6 +568,102 @@ func Corrupt(r *sim.Rng, m *WMsg) (kind string, inLazy bool, ok bool) {
 		}
 	case "unterminated-group":
 		payload = protowire.AppendTag(payload, 9000, protowire.StartGroupType)
+	case "packed-misaligned":
+		// a packed payload of a fixed-width repeated field whose length is not a multiple of the width
+		fd := findField(c.nd.Sub.MD, func(fd protoreflect.FieldDescriptor) bool {
+			switch fd.Kind() {
+			case protoreflect.Fixed32Kind, protoreflect.Sfixed32Kind, protoreflect.FloatKind, protoreflect.Fixed64Kind, protoreflect.Sfixed64Kind, protoreflect.DoubleKind:
+				return fd.IsList()
+			}
+			return false
+		})
+		if fd == nil {
+			kind = "bad-wiretype"
+			payload = append(payload, byte(1<<3|7))
+		} else {
+			payload = protowire.AppendTag(payload, fd.Number(), protowire.BytesType)
+			payload = protowire.AppendBytes(payload, r.Bytes([]int{1, 2, 3, 5, 6, 7, 9}[r.Intn(7)]))
+		}
+	case "packed-truncated-varint":
+		fd := findField(c.nd.Sub.MD, func(fd protoreflect.FieldDescriptor) bool {
+			switch fd.Kind() {
+			case protoreflect.Int32Kind, protoreflect.Int64Kind, protoreflect.Uint32Kind, protoreflect.Uint64Kind, protoreflect.Sint32Kind, protoreflect.Sint64Kind, protoreflect.BoolKind, protoreflect.EnumKind:
+				return fd.IsList()
+			}
+			return false
+		})
+		if fd == nil {
+			kind = "truncated-varint"
+			payload = append(payload, byte(protowire.EncodeTag(1, protowire.VarintType)), 0x80)
+		} else {
+			payload = protowire.AppendTag(payload, fd.Number(), protowire.BytesType)
+			payload = protowire.AppendBytes(payload, []byte{0x01, 0x80})
+		}
+	case "overlong-varint":
+		// eleven bytes: no decoder may accept it, whatever the field
+		fd := findField(c.nd.Sub.MD, func(fd protoreflect.FieldDescriptor) bool {
+			return !fd.IsList() && !fd.IsMap() && (fd.Kind() == protoreflect.Int64Kind || fd.Kind() == protoreflect.Uint64Kind || fd.Kind() == protoreflect.Int32Kind || fd.Kind() == protoreflect.BoolKind)
+		})
+		num := protowire.Number(1)
+		if fd != nil {
+			num = fd.Number()
+		}
+		payload = protowire.AppendTag(payload, num, protowire.VarintType)
+		payload = append(payload, 0x80, 0x80, 0x80, 0x80, 0x80, 0x80, 0x80, 0x80, 0x80, 0x80, 0x01)
+	case "bad-utf8-in-container":
+		// invalid UTF-8 in an element of a repeated string, or in a string key or value of a map entry
+		fd := findField(c.nd.Sub.MD, func(fd protoreflect.FieldDescriptor) bool {
+			if fd.IsMap() {
+				return fd.MapKey().Kind() == protoreflect.StringKind || fd.MapValue().Kind() == protoreflect.StringKind
+			}
+			return fd.IsList() && fd.Kind() == protoreflect.StringKind
+		})
+		if fd == nil {
+			kind = "bad-wiretype"
+			payload = append(payload, byte(1<<3|7))
+		} else if fd.IsMap() {
+			var e []byte
+			if fd.MapKey().Kind() == protoreflect.StringKind {
+				e = protowire.AppendTag(e, 1, protowire.BytesType)
+				e = protowire.AppendBytes(e, []byte{0xc3, 0x28})
+			} else {
+				e = protowire.AppendTag(e, 1, protowire.VarintType)
+				e = protowire.AppendVarint(e, 1)
+			}
+			if fd.MapValue().Kind() == protoreflect.StringKind {
+				e = protowire.AppendTag(e, 2, protowire.BytesType)
+				e = protowire.AppendBytes(e, []byte{0xff})
+			}
+			payload = protowire.AppendTag(payload, fd.Number(), protowire.BytesType)
+			payload = protowire.AppendBytes(payload, e)
+		} else {
+			payload = protowire.AppendTag(payload, fd.Number(), protowire.BytesType)
+			payload = protowire.AppendBytes(payload, []byte("ok"))
+			payload = protowire.AppendTag(payload, fd.Number(), protowire.BytesType)
+			payload = protowire.AppendBytes(payload, []byte{0xe2, 0x82})
+		}
+	case "group-end-mismatch":
+		// a group (of a declared group field if there is one) closed by the end tag of another number
+		num := protowire.Number(9001)
+		if fd := findField(c.nd.Sub.MD, func(fd protoreflect.FieldDescriptor) bool { return fd.Kind() == protoreflect.GroupKind }); fd != nil {
+			num = fd.Number()
+		}
+		payload = protowire.AppendTag(payload, num, protowire.StartGroupType)
+		payload = protowire.AppendTag(payload, num+1, protowire.EndGroupType)
+	case "field-number-overflow":
+		payload = protowire.AppendVarint(payload, uint64(1<<29)<<3|uint64(protowire.VarintType))
+		payload = protowire.AppendVarint(payload, 1)
+	case "nested-bad-length":
+		// a message-typed field one level further down whose length prefix overruns its parent
+		fd := findField(c.nd.Sub.MD, func(fd protoreflect.FieldDescriptor) bool {
+			return fd.Message() != nil && fd.Kind() == protoreflect.MessageKind
+		})
+		num := protowire.Number(9002)
+		if fd != nil {
+			num = fd.Number()
+		}
+		payload = protowire.AppendTag(payload, num, protowire.BytesType)
+		payload = append(payload, 0x05, 0x08, 0x01)
 	}
 	c.nd.Sub = nil
 	c.nd.Bytes = payload
